@@ -148,3 +148,21 @@ def b_or(x, y):
     if isinstance(x, bool) and isinstance(y, bool):
         return x or y
     return x | y
+
+
+def digits_int(ctx, name, maxdigits=6, signed=True):
+    """an int given by its decimal digits (the digits are the symbolic objects, the value is
+    linear in them): sign and digit count are forked, digits stay symbolic"""
+    n = 1 + ctx.choice(name + ".nd", maxdigits)
+    neg = bool(ctx.choice(name + ".neg", 2)) if signed else False
+    ds = []
+    v = 0
+    for i in range(n):
+        d = ctx.int("%s.d%d" % (name, i), 1 if (i == 0 and (n > 1 or neg)) else 0, 9)
+        ds.append(d)
+        v = v * 10 + d
+    if neg:
+        v = -v
+    if ctx.symbolic and not isinstance(v, int):
+        v.digits = (neg, ds)
+    return v
